@@ -24,6 +24,35 @@ CLAIMED = {
                   "primitives) + model/implementation correspondence check",
         note="Modelled, not verified: numpy matmul/pad/indexing; arccos/cos/sin/exp/sqrt floats.",
         ref="§5 C01"),
+    "C02": dict(
+        text="Two Lean models: the line-by-line bookkeeping model of Circuit.add/herald/_map_mode (Circ) and the "
+             "specification Optic (ports, private ancillas, one matrix; add = Embed(S~).Embed(P)). Theorems (for all "
+             "states/ops): the invariant Circ.WF is preserved by every accepted call, mapMode never lands on an ancilla "
+             "and is strictly monotone, prims never touch ancillas, existing ancillas survive add with their photon "
+             "number, oversize additions are rejected; Optic.compose keeps the parent's heralds as a prefix. The "
+             "correspondence check runs generated trees of circuits on lightworks and on both models; the Optic closed "
+             "form is the property's oracle, so a routing defect yields a concrete failing program.",
+        technique="Lean 4 invariant proofs over an executable bookkeeping model + executable specification (Optic) "
+                  "used as oracle in a model/implementation correspondence check",
+        note="The refinement theorem sem_add (bookkeeping model = Optic.compose for all inputs) is NOT proved; it is "
+             "validated by running both models and the code on every generated case. Amplitude clause via Fock functor.",
+        ref="§5 C02"),
+    "C08": dict(
+        text="Lean frame theorems over a pool-of-objects model of the construction API (heapStep): a call changes at "
+             "most its target object, a raising call changes nothing, lifted by induction to every history. The "
+             "correspondence check snapshots EVERY live implementation object after EVERY call of generated histories "
+             "(objects reused as arguments) and compares with the model pool and with the pre-call snapshot; read-only "
+             "consumers and shared module-level gate objects are probed on the implementation.",
+        technique="Lean 4 frame/invariant proof by induction over histories + per-call whole-pool correspondence check",
+        note="Python aliasing is not modelled (model values are immutable); observed on the implementation instead.",
+        ref="§5 C08"),
+    "C09": dict(
+        text="Lean theorems that each rewrite (unpack, non-adjacent-BS replacement, swap compression) preserves "
+             "compile (U_full) for all specs, plus structural postconditions; correspondence check applies random "
+             "rewrite sequences to generated circuits and evaluates the property's clauses on the implementation.",
+        technique="Lean 4 semantic-preservation proofs of rewrites over the executable compile model + correspondence check",
+        note="copy is the identity on the immutable model; sharing is checked on the implementation by mutation probes.",
+        ref="§5 C09"),
 }
 
 PENDING_REASON = "check not built yet in this session (planned, see DESIGN.md §5 and §11); not claimed until its machinery exists"
